@@ -734,7 +734,7 @@ fn lower_expr_stmt(e: &Expr) -> Vec<String> {
 }
 
 /// `impl ArchAssembler … { fn parse(asm, name) { match name { OperationName::X => body, … } } }`
-fn trees(file: &File) -> Vec<(String, String)> {
+fn trees(file: &File) -> Vec<(String, String, bool)> {
     let mut out = Vec::new();
     for item in &file.items {
         if let Item::Impl(imp) = item {
@@ -759,11 +759,17 @@ fn trees(file: &File) -> Vec<(String, String)> {
                                     let op = match &arm.pat {
                                         Pat::Path(p) => last_seg(&p.path),
                                         _ => {
-                                            out.push(("?".into(), unknown("operation arm", norm(&arm.pat))));
+                                            out.push(("?".into(), unknown("operation arm", norm(&arm.pat)), false));
                                             continue;
                                         }
                                     };
-                                    out.push((op, block_of(&arm.body)));
+                                    let before = unsafe { UNKNOWN };
+                                    let body = block_of(&arm.body);
+                                    let ok = unsafe { UNKNOWN } == before;
+                                    if !ok {
+                                        eprintln!("azx: arm {op}: not translatable as written");
+                                    }
+                                    out.push((op, body, ok));
                                 }
                             }
                         }
@@ -801,6 +807,10 @@ fn wrap(s: &str, width: usize) -> String {
 fn main() {
     let args: Vec<String> = std::env::args().collect();
     let lenient = args.iter().any(|a| a == "--lenient");
+    let write_baseline = args.iter().any(|a| a == "--write-baseline");
+    let basedir = args.iter().position(|a| a == "--baseline").map(|i| args[i + 1].clone()).unwrap_or("/verif/tools/azx/baseline".into());
+    let mut status = String::from("{");
+    let mut missing = 0usize;
     let repo = args.iter().position(|a| a == "--repo").map(|i| args[i + 1].clone()).unwrap_or("/repo".into());
     let outdir = args.iter().position(|a| a == "--out").map(|i| args[i + 1].clone()).unwrap_or("/verif/lean/Az65/Gen".into());
     fs::create_dir_all(&outdir).unwrap();
@@ -829,7 +839,46 @@ fn main() {
             emit_pairs(&mut names, &format!("{arch}{short}Display"), t.display.get(ty).map(|v| &v[..]).unwrap_or(&[]));
         }
         // ---- trees
-        let arms = trees(&parsed);
+        let translated = trees(&parsed);
+        // Arms the translator cannot read as written fall back to the committed baseline body of the
+        // same mnemonic (a hand-kept model of that arm, tied to the code by the correspondence check
+        // only); an arm with neither is an error.
+        let base_path = format!("{basedir}/{arch}.arms");
+        let base_text = fs::read_to_string(&base_path).unwrap_or_default();
+        let mut baseline: BTreeMap<String, String> = BTreeMap::new();
+        for rec in base_text.split("\n### ").skip(1) {
+            if let Some((op, body)) = rec.split_once('\n') {
+                baseline.insert(op.trim().to_string(), body.trim_end().to_string());
+            }
+        }
+        let mut arms: Vec<(String, String)> = Vec::new();
+        let (mut regen, mut fell, mut miss): (Vec<String>, Vec<String>, Vec<String>) = (vec![], vec![], vec![]);
+        for (op, body, ok) in translated {
+            if ok {
+                regen.push(op.clone());
+                arms.push((op, body));
+            } else if let Some(b) = baseline.get(&op) {
+                fell.push(op.clone());
+                arms.push((op, b.clone()));
+            } else {
+                miss.push(op.clone());
+                arms.push((op, body));
+            }
+        }
+        missing += miss.len();
+        if write_baseline && fell.is_empty() && miss.is_empty() {
+            fs::create_dir_all(&basedir).unwrap();
+            let mut t = String::from("-- baseline bodies of the mnemonic arms, written by `azx --write-baseline` on the pinned tree\n");
+            for (op, body) in &arms {
+                t.push_str(&format!("\n### {op}\n{body}\n"));
+            }
+            write_if_changed(&base_path, &t);
+        }
+        let q = |v: &Vec<String>| v.iter().map(|x| format!("\"{x}\"")).collect::<Vec<_>>().join(", ");
+        if status.len() > 1 {
+            status.push_str(", ");
+        }
+        status.push_str(&format!("\"{arch}\": {{\"regenerated\": [{}], \"baseline\": [{}], \"missing\": [{}]}}", q(&regen), q(&fell), q(&miss)));
         let cap = match arch {
             "z80" => "Z80",
             "sm83" => "Sm83",
@@ -852,10 +901,12 @@ fn main() {
     }
     names.push_str("end Az65.Gen\n");
     write_if_changed(&format!("{outdir}/Names.lean"), &names);
+    status.push_str("}\n");
+    write_if_changed(&format!("{outdir}/status.json"), &status);
     let unk = unsafe { UNKNOWN };
     if unk > 0 {
-        eprintln!("azx: {unk} construct(s) could not be translated");
-        if !lenient {
+        eprintln!("azx: {unk} construct(s) could not be translated; {missing} arm(s) without a baseline");
+        if missing > 0 && !lenient {
             std::process::exit(3);
         }
     }
